@@ -132,3 +132,18 @@ package aggregation
 //@   ensures sorted_strict(ret)
 //@   loop 1 invariant forall k in [0, rangeindex + 1) :: slice[k] < ele
 //@   loop 1 invariant forall k in [0, len(slice)) :: slice[k] == old(slice[k])
+
+// ---- order statistics (nearest rank on the sorted sample list) ----
+//@ func (*StatisticalAnalysis).Median
+//@   pure
+//@   ensures len(s.orderedValues) == 0 ==> result == 0.0
+//@   ensures len(s.orderedValues) > 0 ==> result == s.orderedValues[len(s.orderedValues) / 2]
+// Quantile is total: any p (user input divided by 100) selects an element of the list
+//@ func (*StatisticalAnalysis).Quantile
+//@   pure
+//@   ensures len(s.orderedValues) == 0 ==> result == 0.0
+//@   ensures len(s.orderedValues) > 0 ==> exists k in [0, len(s.orderedValues)) :: result == s.orderedValues[k]
+//@   ensures len(s.orderedValues) > 0 && 0.0 <= p && p < 1.0 && len(s.orderedValues) <= 1000000000 ==> result == s.orderedValues[f2i(real(len(s.orderedValues)) * p)]
+//@ func (*StatisticalAnalysis).Mode
+//@   pure
+//@   loop 1 invariant 0 <= i
